@@ -171,10 +171,13 @@ def wrapper(kind, with_stmt):
         return ofxgen.build(W, a, k)
 
 
-def h_statements(ctx, cls, n):
+def h_statements(ctx, cls, n, fixed=0):
+    """n wrappers of symbolic kind / presence, after `fixed` concrete ones (longer lists than the symbolic part alone)"""
     K = ofxgen.class_by_name(cls)
     kinds = MSGSETS[cls]
     members = []
+    for i in range(fixed):
+        members.append((kinds[i % len(kinds)], wrapper(kinds[i % len(kinds)], i % 3 != 2)))
     for i in range(n):
         k = ctx.choice(f"k{i}", list(range(len(kinds))))
         ws = ctx.bool(f"s{i}")
@@ -313,7 +316,7 @@ HARNESSES = dict(getattr=h_getattr, copy=h_copy, statements=h_statements, ofx=h_
 META = dict(
     bounds=dict(instances="base instance with up to 2 (quick) / 3 (thorough) optional sub-aggregates of symbolic presence",
                 names="up to 24 names declared below the class (depth <= 3) + 2 undefined names + 7 protocol (dunder) names, symbolic",
-                statements="0-3 transaction wrappers of symbolic kind, with/without their statement"),
+                statements="0-3 transaction wrappers of symbolic kind, with/without their statement; and 6 (quick) / 12 (thorough) concrete wrappers followed by a symbolic one"),
     models=["instrumented Aggregate.__getattr__ and the property shortcuts", "Types.Element.__get__ (native)", "copy / pickle (native, on path witnesses and symbolic-presence instances)"],
     assumptions=["reference: explicit walk over __dict__ of the present non-repeated descendants (harness/c16.py definers)"],
     observations=["reading a *repeated* child's name directly on its parent (e.g. banktranlist.stmttrn) raises KeyError from Element.__get__; the property speaks of non-repeated descendants, so this is not asserted"],
@@ -339,6 +342,7 @@ def instances(tier, seed):
     for cls in MSGSETS:
         for n in ((0, 1, 2) if not full else (0, 1, 2, 3)):
             mk(f"statements[{cls},{n}]", "statements", dict(cls=cls, n=n))
+        mk(f"statements[{cls},6 fixed + 1]", "statements", dict(cls=cls, n=1, fixed=6 if not full else 12))
     mk("ofx[rs]", "ofx", dict(rs=True), max_paths=5000)
     mk("ofx[rq]", "ofx", dict(rs=False), max_paths=5000)
     for k in range(len(SIMPLE)):
